@@ -208,3 +208,215 @@ class Explorer:
             self._reap_one()
         self.solo_a = va
         return self.results
+
+
+class Explorer2(Explorer):
+    """preemption bound 2: A runs to its point i, B runs in a second thread to ITS point j and is suspended there, A resumes and runs
+    to completion, then B resumes and completes  (A | B | A | B).  Every (i, j) is one forked execution: the fork is taken in A's
+    thread at point i, the grandchild starts B's thread, B's own line events are counted by the same monitor and B parks on a
+    semaphore at its j-th event.  Exactly one of the two threads is runnable at any time, so the schedule is fully determined.
+
+    For every i a forked 'sequence child' first runs B to completion at that point (this is the one-preemption schedule) and sends back
+    the sequence of B's line sites in the state A has produced so far; the j to explore are chosen from that sequence (all of them, or the
+    first n / last m occurrences of every site)."""
+
+    def __init__(self, pkg_prefix, timeout=20.0, outstanding=4, b_cap=None):
+        super().__init__(pkg_prefix, 'line', timeout, outstanding)
+        self.b_cap = b_cap
+        self.b_ident = None
+        self.bk = 0
+        self.b_target = None
+        self.b_site = None
+        self.recording = None
+        self.pairs_skipped_by_b_cap = 0
+
+    def _b_sequence(self):
+        """in a forked child: run B to completion in a second thread at the current point of A, record the sites of its line events"""
+        r, w = os.pipe()
+        pid = os.fork()
+        if pid == 0:
+            try:
+                os.close(r)
+                self.in_child = True
+                self.recording = []
+                self.b_target = -1
+                box = []
+                t = threading.Thread(target=lambda: (setattr(self, 'b_ident', threading.get_ident()), box.append(call_value(self.call_b))))
+                t.start()
+                t.join()
+                data = pickle.dumps(self.recording)
+                view = memoryview(data)
+                while view:
+                    n = os.write(w, view[:1 << 16])
+                    view = view[n:]
+            finally:
+                os._exit(0)
+        os.close(w)
+        buf = []
+        t0 = time.time()
+        while True:
+            rd, _, _ = select.select([r], [], [], max(0.0, self.timeout - (time.time() - t0)))
+            if not rd:
+                try:
+                    os.kill(pid, signal.SIGKILL)
+                except ProcessLookupError:
+                    pass
+                buf = None
+                break
+            ch = os.read(r, 1 << 16)
+            if not ch:
+                break
+            buf.append(ch)
+        os.close(r)
+        os.waitpid(pid, 0)
+        if buf is None:
+            return None
+        try:
+            return pickle.loads(b''.join(buf))
+        except Exception:
+            return None
+
+    def _choose_j(self, seq):
+        if self.b_cap is None:
+            return list(range(1, len(seq) + 1))
+        if self.b_cap == 'func':           # B is parked at the first line event of every distinct function it runs (call boundaries)
+            seen_f = set()
+            out = []
+            for j, s in enumerate(seq, 1):
+                if s[:2] in seen_f:
+                    self.pairs_skipped_by_b_cap += 1
+                    continue
+                seen_f.add(s[:2])
+                out.append(j)
+            return out
+        tot = {}
+        for s in seq:
+            tot[s] = tot.get(s, 0) + 1
+        seen = {}
+        out = []
+        for j, s in enumerate(seq, 1):
+            n = seen[s] = seen.get(s, 0) + 1
+            if n <= self.b_cap[0] or n > tot[s] - self.b_cap[1]:
+                out.append(j)
+            else:
+                self.pairs_skipped_by_b_cap += 1
+        return out
+
+    def _cb(self, code, where):
+        if not code.co_filename.startswith(self.prefix):
+            return mon.DISABLE
+        if self.in_child:
+            if threading.get_ident() != self.b_ident:
+                return None                      # A's own events after it has resumed
+            self.bk += 1
+            if self.recording is not None:
+                self.recording.append((code.co_filename[len(self.prefix):], code.co_name, where))
+            elif self.bk == self.b_target:
+                self.b_site = (code.co_filename[len(self.prefix):], code.co_name, where)
+                self.b_parked.set()              # baton to A ...
+                self.b_go.acquire()              # ... and wait here until A has completed
+            return None
+        self.k += 1
+        k = self.k
+        if self.counting is not None:
+            self.counting[(code.co_filename, code.co_name, where)] = self.counting.get((code.co_filename, code.co_name, where), 0) + 1
+            return None
+        if self.occ_cap is not None:
+            key = (code.co_filename, code.co_name, where)
+            n = self.occ_seen[key] = self.occ_seen.get(key, 0) + 1
+            tot = self.occ_total.get(key, n)
+            if not (n <= self.occ_cap[0] or n > tot - self.occ_cap[1]):
+                self.skipped += 1
+                return None
+        if self.only is not None:
+            if isinstance(self.only, tuple):
+                if k % self.only[0] != self.only[1]:
+                    return None
+            elif k not in self.only:
+                return None
+        site = (code.co_filename[len(self.prefix):], code.co_name, where)
+        seq = self._b_sequence()
+        if seq is None:
+            self.results.append((k, site, 0, None, 'blocked', None))
+            return None
+        self.b_lengths.append(len(seq))
+        js = self._choose_j(seq)
+        if self.only_j is not None:
+            js = [j for j in js if j in self.only_j]
+        for j in js:
+            r, w = os.pipe()
+            pid = os.fork()
+            if pid == 0:
+                os.close(r)
+                self.in_child = True
+                self.child_w = w
+                self.b_target = j
+                self.bk = 0
+                self.b_parked = threading.Event()
+                self.b_go = threading.Semaphore(0)
+                self.b_box = []
+
+                def body():
+                    self.b_ident = threading.get_ident()
+                    try:
+                        self.b_box.append(call_value(self.call_b))
+                    finally:
+                        self.b_parked.set()      # B ended before reaching j (cannot happen for a deterministic B): do not leave A waiting
+                self.b_thread = threading.Thread(target=body)
+                self.b_thread.start()
+                self.b_parked.wait()
+                return None                      # A resumes from exactly this point, B is parked at its j-th line event
+            os.close(w)
+            self.pending.append((pid, r, (k, j, seq[j - 1]), site, time.time()))
+            while len(self.pending) >= self.outstanding:
+                self._reap_one()
+        return None
+
+    def _reap_one(self):
+        n0 = len(self.results)
+        super()._reap_one()
+        for idx in range(n0, len(self.results)):
+            (k, j, bsite), site, va, vb = self.results[idx]
+            self.results[idx] = (k, site, j, bsite, va, vb)
+
+    def explore(self, call_a, call_b, only=None, only_j=None):
+        """returns list of (i, site of A, j, site of B, A's value, B's value)"""
+        self.call_b = call_b
+        self.results = []
+        self.pending = []
+        self.b_lengths = []
+        self.k = 0
+        self.only = only if isinstance(only, tuple) or only is None else set(only)
+        self.only_j = set(only_j) if only_j is not None else None
+        mon.use_tool_id(TOOL, 'verif-sched')
+        mon.register_callback(TOOL, self.event, self._cb)
+        mon.set_events(TOOL, self.event)
+        try:
+            va = call_value(call_a)
+        finally:
+            if not self.in_child:
+                mon.set_events(TOOL, 0)
+                mon.register_callback(TOOL, self.event, None)
+                mon.free_tool_id(TOOL)
+        if self.in_child:
+            try:
+                parked_at_j = self.bk == self.b_target and not self.b_box
+                self.b_go.release()              # A is complete: B resumes and runs to its end
+                self.b_thread.join()
+                mon.set_events(TOOL, 0)
+                vb = self.b_box[0] if self.b_box else ('exc', 'the second thread ended without a value')
+                if not parked_at_j:
+                    vb = ('not-parked', vb)
+                if self.after is not None:
+                    vb = ('with-probe', vb, call_value(self.after))
+                data = pickle.dumps((va, vb))
+                view = memoryview(data)
+                while view:
+                    n = os.write(self.child_w, view[:1 << 16])
+                    view = view[n:]
+            finally:
+                os._exit(0)
+        while self.pending:
+            self._reap_one()
+        self.solo_a = va
+        return self.results
